@@ -42,9 +42,106 @@ def cmd2x (ts : List String) : String :=
     joinLines text ++ "#" ++ show2x b ++ "#" ++ fB (show2x a == show2x b)
   | _ => "bad-args"
 
+/-! ### ADF12:  `adf12 pad nblocks {up lo qefref r0..r4 nbeam nti ndi nze nb ener.. qener.. tiev.. qtiev.. densi.. qdensi.. zeff.. qzeff.. bmag.. qbmag..}`
+with an optional leading `count=<n>` override of the first line (absent-block stream) -/
+
+def show12one (tr : Nat × Nat) (r : Rate12 String) : String :=
+  toString tr.1 ++ "-" ++ toString tr.2 ++ ";eb:" ++ vec r.eb ++ ";ti:" ++ vec r.ti ++ ";ni:" ++ vec r.ni ++ ";z:" ++ vec r.z
+    ++ ";b:" ++ vec r.b ++ ";qeb:" ++ vec r.qeb ++ ";qti:" ++ vec r.qti ++ ";qni:" ++ vec r.qni ++ ";qz:" ++ vec r.qz
+    ++ ";qb:" ++ vec r.qb ++ ";ebref:" ++ r.ebref ++ ";tiref:" ++ r.tiref ++ ";niref:" ++ r.niref ++ ";zref:" ++ r.zref
+    ++ ";bref:" ++ r.bref ++ ";qref:" ++ r.qref
+
+def show12 : Except Err (List ((Nat × Nat) × Rate12 String)) → String
+  | .error e => "err " ++ e.toString
+  | .ok l => "ok " ++ "!".intercalate (l.map fun kv => show12one kv.1 kv.2)
+
+def readBlk12 (ts : List String) : Blk12 String × List String :=
+  match ts with
+  | up :: lo :: q :: r0 :: r1 :: r2 :: r3 :: r4 :: nbeam :: nti :: ndi :: nze :: nb :: rest =>
+    let (ener, rest) := takeN (pN nbeam) rest
+    let (qener, rest) := takeN (pN nbeam) rest
+    let (tiev, rest) := takeN (pN nti) rest
+    let (qtiev, rest) := takeN (pN nti) rest
+    let (densi, rest) := takeN (pN ndi) rest
+    let (qdensi, rest) := takeN (pN ndi) rest
+    let (zeff, rest) := takeN (pN nze) rest
+    let (qzeff, rest) := takeN (pN nze) rest
+    let (bmag, rest) := takeN (pN nb) rest
+    let (qbmag, rest) := takeN (pN nb) rest
+    ({ up := pN up, lo := pN lo, qefref := q, refs := [r0, r1, r2, r3, r4], ener := ener, qener := fnOf qener,
+       tiev := tiev, qtiev := fnOf qtiev, densi := densi, qdensi := fnOf qdensi, zeff := zeff, qzeff := fnOf qzeff,
+       bmag := bmag, qbmag := fnOf qbmag }, rest)
+  | _ => ({ up := 0, lo := 0, qefref := "?", refs := [], ener := [], qener := fnOf [], tiev := [], qtiev := fnOf [],
+            densi := [], qdensi := fnOf [], zeff := [], qzeff := fnOf [], bmag := [], qbmag := fnOf [] }, [])
+
+def readBlks12 : Nat → List String → List (Blk12 String)
+  | 0, _ => []
+  | n + 1, ts => let (b, r) := readBlk12 ts; b :: readBlks12 n r
+
+def cmd12 (ts : List String) : String :=
+  match ts with
+  | count :: pad :: nb :: rest =>
+    let bs := readBlks12 (pN nb) rest
+    let ks0 := render12 pad bs
+    -- the absent-block stream announces more blocks than the file holds
+    let ks := if count == "-" then ks0 else (K12.count (pN count)) :: ks0.tail
+    let text := ks.map text12
+    let a := parse12 lexK12 ks
+    let b := parse12 lex12 text
+    joinLines text ++ "#" ++ show12 b ++ "#" ++ fB (show12 a == show12 b)
+  | _ => "bad-args"
+
+/-! ### ADF11:  `adf11 cls elemZ elemName z name zmin zmax nNe nTe altEnd nmeta meta.. nblocks z1.. ne.. te.. rates(block, i_te, i_ne)..`
+`nmeta = 0`: unresolved file -/
+
+def cls11 (s : String) : Class11 :=
+  match s with
+  | "scd" => .scd | "acd" => .acd | "ccd" => .ccd | "plt" => .plt | "prb" => .prb | "prc" => .prc | _ => .pls
+
+def show11blk (k : String) (ne te : List String) (rates : List (List String)) : String :=
+  k ++ ";ne:" ++ vec ne ++ ";te:" ++ vec te ++ ";rates:" ++ mat rates
+
+def show11 : Except Err (List (Nat × Block11 String)) → String
+  | .error e => "err " ++ e.toString
+  | .ok l => "ok " ++ "!".intercalate (l.map fun kv => show11blk (toString kv.1) kv.2.ne kv.2.te kv.2.rates)
+
+def show11inst (c : Class11) : Except Err (List (Nat × Block11 String)) → String
+  | .error e => "err " ++ e.toString
+  | .ok l => "ok " ++ "!".intercalate ((notation11 c l).map fun kv => show11blk (toString kv.1) kv.2.ne kv.2.te kv.2.rates)
+
+def readBlks11 (nNe nTe : Nat) : List String → List String → List (Blk11 String)
+  | [], _ => []
+  | z :: zs, ts =>
+    let (r, rest) := takeN (nNe * nTe) ts
+    { z1 := pN z, rate := fn2 nNe r } :: readBlks11 nNe nTe zs rest
+
+def cmd11 (ts : List String) : String :=
+  match ts with
+  | cls :: elemZ :: elemName :: z :: name :: zmin :: zmax :: nNe :: nTe :: altEnd :: nmeta :: rest =>
+    let nNe := pN nNe; let nTe := pN nTe
+    let (metaL, rest) := takeN (pN nmeta) rest
+    match rest with
+    | nb :: rest =>
+      let (zs, rest) := takeN (pN nb) rest
+      let (ne, rest) := takeN nNe rest
+      let (te, rest) := takeN nTe rest
+      let res : Option (List String) := if pN nmeta == 0 then none else some metaL
+      let blks := readBlks11 nNe nTe zs rest
+      let t : Tab11 String String := ⟨pN z, name, pN zmin, pN zmax, ne, te, res, blks, pB altEnd⟩
+      let ks := render11 t
+      let text := ks.map text11
+      let neg : String → Bool := fun s => s.startsWith "-"
+      let a := parse11 (lexK11 neg) (pN elemZ) elemName ks
+      let b := parse11 lex11 (pN elemZ) elemName text
+      joinLines text ++ "#" ++ show11 b ++ "#" ++ fB (show11 a == show11 b) ++ "#" ++ show11inst (cls11 cls) b
+    | _ => "bad-args"
+  | _ => "bad-args"
+
 def step (ts : List String) : String :=
   match ts with
   | "adf2x" :: r => cmd2x r
+  | "adf12" :: r => cmd12 r
+  | "adf11" :: r => cmd11 r
   | _ => "bad-op"
 
 def main : IO UInt32 := do
